@@ -31,7 +31,7 @@ class Unit(object):
     def __init__(self, name, fn, bounds=None, max_paths=3000, replay=None,
                  exceptions_are_violations=True, expect_reach=True, tol=1e-6,
                  verdict_timeout_ms=None, program=None, time_budget_s=None,
-                 allow_aborts=False, n_programs=None, optional=False, fidelity=1):
+                 allow_aborts=False, n_programs=None, optional=False, fidelity=1, stress=None):
         self.name = name
         self.fn = fn
         self.bounds = bounds or {}
@@ -51,6 +51,11 @@ class Unit(object):
         # violations, exceptions and aborts are reported as for any other unit.
         self.optional = optional
         self.fidelity = fidelity      # number of explored paths re-run concretely on the unstubbed real code
+        # float stress points (optional): {"scale": {name-prefix: factor}} -- after a validated fidelity run the same
+        # concrete run is repeated with the named inputs scaled to extreme but VALID magnitudes.  The solver's claim
+        # is over the reals; this probe looks for what reals cannot show (underflow/overflow of an intermediate
+        # such as exp(log-density)): a failure there is a concrete failing input of the real code and is reported.
+        self.stress = stress
 
 
 class FunctionHits(object):
@@ -201,6 +206,24 @@ def run_unit(unit, tier):
             if status == "ok" and cc.passed and not cc.failed:
                 res["fidelity"]["validated"] += 1
                 res["fidelity"]["assertions_evaluated"] += len(cc.passed)
+                if unit.stress:
+                    for factor_set in unit.stress.get("scales", []):
+                        sv = dict(vals)
+                        for k_, v_ in vals.items():
+                            for pref, fac in factor_set.items():
+                                if k_.startswith(pref) and isinstance(v_, (int, float)) and not k_.startswith(("uf", "watch")):
+                                    sv[k_] = type(v_)(v_ * fac) if isinstance(v_, float) else float(v_ * fac)
+                        try:
+                            with contextlib.redirect_stdout(io.StringIO()):
+                                cs, st_s, exc_s = sym.run_concrete(unit.fn, sv, unit.tol)
+                        except BaseException:
+                            continue
+                        res["fidelity"]["stress_points"] = res["fidelity"].get("stress_points", 0) + 1
+                        if cs.failed:
+                            res["violations"].append({"unit": unit.name, "label": cs.failed[0] + " [float stress point]", "kind": "assertion", "path": p.index,
+                                                      "values": sv, "replay": {"reproduced": True, "how": "concrete run of the real code at an extreme but valid input (inputs %s scaled); outside the solver's real-arithmetic claim, a failing input nonetheless" % factor_set,
+                                                                               "info": {"failed": cs.failed[:5]}}})
+                            break
             elif cc.failed:
                 # One floating-point evaluation at one solver-chosen point is not a verdict: rounding near a
                 # singularity or an infinite log-density can fail a tolerance although the identity is proved over
@@ -416,7 +439,7 @@ def run_check(check, tier, seed, jobs=None, only=None):
         "stubs": check.stubs,
         "known_findings_matched": sorted({f["match"] for f, _ in known}),
         "inconclusive": [{"unit": i.get("unit"), "label": i.get("label"), "kind": i.get("kind")} for i in inconclusive][:20],
-        "fidelity": {k: int(sum(r.get("fidelity", {}).get(k, 0) for r in results)) for k in ("validated", "skipped", "mismatch", "assertions_evaluated")},
+        "fidelity": {k: int(sum(r.get("fidelity", {}).get(k, 0) for r in results)) for k in ("validated", "skipped", "mismatch", "assertions_evaluated", "stress_points")},
         "fidelity_mismatches": [{"unit": m_["unit"], "label": m_["label"][:300], "values": m_.get("values")} for r in results for m_ in r.get("fidelity_mismatches", [])][:10],
         "undecided_on_generated_programs": [u for r in results for u in r.get("undecided_optional", [])][:40],
         "violations": [{"unit": v["unit"], "label": v["label"], "replay_file": v.get("replay_file")} for v in violations][:20],
